@@ -55,6 +55,10 @@ chk("C13", "agwsim", "exploration",
     "The real agwpe package (TNC reader, demux levels, chain goroutines, polling) talks over simulated TCP to an independently written reactive AGWPE TNC model: seeded segmentation of both byte streams (including inside the 36-byte header and the data field), reply latencies and orders, MAXFRAME/outstanding-frame draining on the simulated clock, interleaved frames for other callsigns and ports, remote disconnects, refusals, malformed frames and link cuts; scripted clients register, dial (0-7 digis) or accept, write, read with buffers from 1 B, flush and close at seed-chosen instants. Regimes paced / burst / coalesced are part of every stream signature. Oracle: Read = concatenated D payloads of that connection in order, every host frame well-formed with the right port/calls/PID, D payloads = successful Writes, X before C/v, Y polled, Flush only after 0 outstanding, d on Close, nothing foreign delivered, no crash.",
     TB + " The TNC model is written from the public AGWPE socket interface description, not from the library. Known finding: the drop-when-full demux loses frames in the burst/coalesced regimes; the paced regime keeps the strict stream oracle.",
     "deterministic simulation against a reactive TNC model (seeded segmentation, pacing, reply orders, malformed frames)", "DESIGN.md 3 C13")
+chk("C14", "ardopsim", "exploration",
+    "The real ardop package runs against an independently written reactive ARDOP TNC model (written from the host-interface specification in docs/ardop) on both host interfaces: serial through the package's own io.ReadWriteCloser seam (C:/D: prefixes, big-endian count, CRC-16, RDY/CRCFAULT) and TCP through the simulated network (control + data sockets). Seeded ARQ frame sizes up to 65535, write sizes beyond 65535, reader buffers from 1 B, CRCFAULT injection on commands and data, damaged-CRC frames towards the host, frames written in pieces, BUFFER/NEWSTATE/PTT/CONNECTED/DISCONNECTED orders including stale BUFFER 0, garbage on either stream. Oracle: Read = concatenated ARQ payloads in order, every host frame parses (prefix, length, CRC), TNC data = bytes Write reported accepted, identical retransmission after CRCFAULT, Write result in range, Flush only after an empty-buffer report, DISCONNECT/ABORT on Close, PTT calls in order, no crash. The regime (serial/tcp + at most one stress feature) is part of every signature so the plain regimes stay fully strict.",
+    TB + " The TNC model follows the spec text; it does not wait for the host's RDY (the library never sends it). Known findings: commands are never retransmitted on CRCFAULT; Write takes any BUFFER report as acknowledgement (-bufrace regime); a rare non-replayable close race in the broadcaster.",
+    "deterministic simulation against a reactive TNC model on both host interfaces (seeded framing, CRC faults, event orders)", "DESIGN.md 3 C14")
 chk("C15", "telnetsim", "exploration",
     "Real telnet.Listen/Accept and Dial/DialTimeout/DialContext/DialURL on the simulated network: seeded segmentation and coalescing of prompts, replies and first payloads (including payload in the same segment as the last login line), library-vs-library, library dialler vs scripted conforming and hostile servers (silent, partial prompt, garbage, close at offset k, endless drip, SYN never answered), scripted client vs library listener. Oracle: RemoteCall equals the dialled callsign, post-login byte streams complete and unmodified both ways, and every dial call has returned when the simulated clock reaches its deadline + 1 s.",
     TB + " net import swapped for the simulated network shim.",
